@@ -229,3 +229,21 @@ package gcrypto
 //@   loop 1 invariant mono: forall j mathint :: {bsbits(p.bitset)[j]} old(bsbits(p.bitset))[j] ==> bsbits(p.bitset)[j]
 //@   loop 1 invariant unchanged-until-increased: !res.IncreasedSignatures ==> bsbits(p.bitset) == old(bsbits(p.bitset))
 //@   loop 1 invariant coupling: pbits(self) == bsbits(p.bitset)
+
+// ---- Derive: an empty proof over the same message and keys, sharing no mutable state with the original (C13) ----
+//@ iface CommonMessageSignatureProof.Derive(p)
+//@   ensures result != nil && ref(result) != ref(p) && fresh(ref(result)) && typeof(result) == typeof(p)
+//@   ensures same-message-and-keys: pmsg(result) == pmsg(p) && pkeys(result) == pkeys(p) && pkhash(result) == pkhash(p)
+//@   ensures empty: forall i mathint :: {pbits(result)[i]} !pbits(result)[i]
+//@   modifies nothing
+
+//@ func SimpleCommonMessageSignatureProof.Derive
+//@   property C13
+//@   option implements CommonMessageSignatureProof.Derive
+//@   requires SInv(p) && SCoupling(self, p)
+//@   represents pbits(self) == bsbits(p.bitset)
+//@   establishes pbits(result) == bsbits(unbox(result, SimpleCommonMessageSignatureProof).bitset)
+//@   ensures derived-proof-is-well-formed: SInv(unbox(result, SimpleCommonMessageSignatureProof))
+//@   ensures independent-state: fresh(unbox(result, SimpleCommonMessageSignatureProof).bitset) && fresh(unbox(result, SimpleCommonMessageSignatureProof).sigs) &&
+//@       fresh(unbox(result, SimpleCommonMessageSignatureProof).keyIdxs) && len(unbox(result, SimpleCommonMessageSignatureProof).sigs) == 0
+//@   modifies nothing
